@@ -435,14 +435,29 @@ def trace_resample(n, step, target):
     return Q.of(call["num"]), Q.of(attrs["step"])
 
 
-def trace_spectrogram(step, w, h, t0):
+class _Vals(_Tok):
+    """the audio samples: an opaque array of (symbolically many) frames x 1 channel"""
+    ndim = 2
+
+    def __init__(self, n):
+        super().__init__("samples")
+        self.shape = (n, 1)
+
+    def __len__(self):
+        raise st.Untraceable("len() of the symbolic sample array (use .shape / .sizes)")
+
+
+def trace_spectrogram(step, w, h, t0, n):
+    """`n`: the (symbolic) number of audio samples, seen by the code as `audio.sizes["time"]`
+    (or the shape of the data / the size of the time coordinate): the repaired code clamps `nperseg`
+    to it (fix C15-3), which the trace records as the comparison Python's `min` makes"""
     import numpy as np
     import xarray as xr
     from scipy import signal
     from soundevent.audio import spectrograms as SP
     log = []
-    values = np.zeros((4, 1))
-    arr = _ArrStub(values, _Seq(t0), step)
+    values = _Vals(n)
+    arr = _ArrStub(values, _Seq(t0, size=n), step)
     freqs, seg_times = _Tok("frequencies"), _Shifted(_Tok("times"), Q.of(0))
     zxx = np.zeros((3, 1, 2), dtype=complex)
     patches = _dim_patches() + [
@@ -473,7 +488,7 @@ def trace_spectrogram(step, w, h, t0):
 # ---------------------------------------------------------------------- registration
 _SIMP = ("SE.Audio.rangePlan, SE.Audio.timeRangePlan, SE.Audio.clipPlan, SE.Audio.recordingPlan, "
          "SE.Audio.RangePlan.toTuple, SE.Audio.ClipPlan.toTuple, SE.Audio.rangeCount_cast, "
-         "SE.Audio.resamplePlanTuple, SE.Audio.resamplePlan, SE.Audio.stftPlan, SE.Audio.StftPlan.toTuple, "
+         "SE.Audio.resamplePlanTuple, SE.Audio.resamplePlan, SE.Audio.stftPlanTuple, "
          "SE.Audio.floor_zero, SE.Audio.ceil_zero, SE.Audio.truncZ_zero")
 
 
@@ -506,8 +521,11 @@ def register(ctx):
          "some (SE.Audio.recordingPlan sr d).toTuple", "load_recording"),
         ("ext_resample", lambda: trace_resample(V("n"), V("st"), V("target")), ["n", "st", "target"], "Rat × Rat",
          "some (SE.Audio.resamplePlanTuple n st target)", "resample"),
-        ("ext_spectrogram", lambda: trace_spectrogram(V("st"), V("w"), V("h"), V("t0")), ["st", "w", "h", "t0"], R6,
-         "some (SE.Audio.stftPlan st w h t0).toTuple", "spectrogram"),
+        # `n` = number of audio samples: the tie holds for every rational `n`; `C15_stft_plan_tuple` specialises
+        # the traced form to the model's plan `stftPlan st w h t0 len` (clamped `nperseg`, fix C15-3)
+        ("ext_spectrogram", lambda: trace_spectrogram(V("st"), V("w"), V("h"), V("t0"), V("n")),
+         ["st", "w", "h", "t0", "n"], R6,
+         "some (SE.Audio.stftPlanTuple st w h t0 n)", "spectrogram"),
     ]
     trees = {}
     for name, thunk, variables, ret, term, op in ties:
